@@ -155,8 +155,8 @@ def load_specs():
                     (['C01'], 'the constructed vector has the requested size', '__CPROVER_ensures(l0_exc != 0 || V_SIZE(self) == (uint64_t)(%s))' % x),
                     (['C05'], 'a vector constructed with at most N elements is inline and makes no allocator request',
                      '__CPROVER_ensures(l0_exc != 0 || (uint64_t)(%s) > V_EMPTY_CAPA || (!V_HEAP(self) && V_CAPA(self) == V_EMPTY_CAPA && g_nalloc == pre_g.nalloc && g_nrealloc == pre_g.nrealloc && g_ndealloc == pre_g.ndealloc))' % x),
-                    (['C18', 'C06', 'C07'], 'a larger one makes exactly one allocator request, capacity max(1.5*N, needed) clamped to the size_type',
-                     '__CPROVER_ensures(l0_exc != 0 || !V_DYNAMIC || (uint64_t)(%s) <= V_EMPTY_CAPA || (V_GREW_ONCE && g_ndealloc == pre_g.ndealloc && V_CAPA(self) == GROW_SPEC(V_EMPTY_CAPA, %s)))' % (x, x)),
+                    (['C18', 'C06', 'C07'], 'a larger one makes exactly one allocator request, capacity at least max(1.5*N, needed) (clamped to the size_type)',
+                     '__CPROVER_ensures(l0_exc != 0 || !V_DYNAMIC || (uint64_t)(%s) <= V_EMPTY_CAPA || (V_GREW_ONCE && g_ndealloc == pre_g.ndealloc && V_CAPA(self) >= GROW_SPEC(V_EMPTY_CAPA, %s)))' % (x, x)),
                     (['C09', 'C08'], 'only the documented exception kinds', '__CPROVER_ensures(V_EXC_KINDS)')]:
                     cur.clauses.append((tg, lab, txt))
                 pending = None
@@ -170,8 +170,8 @@ def load_specs():
                      '__CPROVER_ensures(l0_exc != V_LIMIT_EXC || V_UNTOUCHED)' if line.startswith('@GROW(') else '__CPROVER_ensures(l0_exc != V_LIMIT_EXC || V_UNTOUCHED_BUT_TEMP)'),
                     (['C07'], 'no reallocation when the result fits the capacity', '__CPROVER_ensures((uint64_t)(%s) > pre_self.capa || V_NO_REALLOC)' % x),
                     (['C07'], 'capacity never decreases and size <= capacity <= max_size', '__CPROVER_ensures(V_CAPA(OPSELF) >= pre_self.capa && V_SIZE(OPSELF) <= V_CAPA(OPSELF) && V_CAPA(OPSELF) <= V_LIMIT)'),
-                    (['C18', 'C06'], 'growth is geometric: exactly one allocator request, capacity max(1.5*old, needed) clamped to the size_type',
-                     '__CPROVER_ensures(!(l0_exc == 0 && V_DYNAMIC && (uint64_t)(%s) > pre_self.capa) || (V_GREW_ONCE && V_CAPA(OPSELF) == GROW_SPEC(pre_self.capa, %s)))' % (x, x)),
+                    (['C18', 'C06'], 'growth is geometric: exactly one allocator request, capacity at least max(1.5*old, needed) (clamped to the size_type)',
+                     '__CPROVER_ensures(!(l0_exc == 0 && V_DYNAMIC && (uint64_t)(%s) > pre_self.capa) || (V_GREW_ONCE && V_CAPA(OPSELF) >= GROW_SPEC(pre_self.capa, %s)))' % (x, x)),
                     (['C05'], 'an inline vector whose size stays within N stays inline and makes no allocator request',
                      '__CPROVER_ensures(!(V_INLINE_PRE && (uint64_t)(%s) <= g_N) || (!V_HEAP(OPSELF) && g_nalloc == pre_g.nalloc && g_nrealloc == pre_g.nrealloc))' % x),
                     (['C09', 'C08'], 'only the documented exception kinds', '__CPROVER_ensures(V_EXC_KINDS)')]:
